@@ -29,10 +29,17 @@ import json
 m = {}
 try: m = json.load(open('$D/meta_seed.json'))
 except Exception: pass
+prev = {}
+try: prev = json.load(open('$D/meta.json'))
+except Exception: pass
 out = {'property': '$P', 'seed': $K, 'breaks': m.get('clause'), 'needs': m.get('needs'), 'files_touched': m.get('files_touched'),
        'verified': {'demo_exit_on_clean_tree': $DC, 'demo_exit_with_patch': $DP, 'test_suite_with_patch': '''$TESTS'''.strip(),
                     'commands': ['git worktree add (HEAD of /repo)', 'python demo.py', 'git apply patch.diff', 'pytest -q test', 'python demo.py', 'VERIF_REPO=<worktree> ./check $P quick']},
        'check': {'exit': $RC, 'seconds': $END - $START, 'violation_line': '''$VIOL'''.strip(), 'caught': $RC == 1}}
+# the report of the FIRST run against this change is kept; later runs (after the check was strengthened) are recorded as 'check'
+first = prev.get('first_check') or prev.get('check')
+if first:
+    out['first_check'] = first
 json.dump(out, open('$D/meta.json', 'w'), indent=1)
 print(json.dumps(out['verified'])); print(json.dumps(out['check']))
 PY
